@@ -25,6 +25,8 @@ import (
 	"github.com/ARM-software/golang-utils/utils/filesystem"
 
 	"verif/harness/hx"
+	"archive/zip"
+	"io"
 )
 
 func init() { subs["archive"] = archiveMain }
@@ -299,6 +301,11 @@ func archiveMain(args []string) {
 	rep := hx.NewReport("trees of 0..25 entries (thorough ..200), depth 0..4 (..6), names over letters, digits, spaces, dots (leading, doubled), unicode, shell metacharacters and archive-like extensions (on directories and on plain files), empty directories, empty / small / multi-megabyte (thorough) files, " +
 		"compressible or random, on MemMapFs and OsFs; each tree: zip→unzip round trip (without limits, with non-recursive and with recursive limits), zip and tar read-only views, refusal of mutating calls, behaviour after Close. " +
 		"non-trivial = tree with at least 3 entries and one nested directory; distinct = tree listing.")
+	drv, derr0 := hx.StartDriver(o.Driver)
+	if derr0 != nil {
+		fmt.Println("driver:", derr0)
+	}
+	defer drv.Close()
 	rnd := hx.NewRand(o.Seed)
 	n := 60
 	maxE, maxD := 25, 4
@@ -412,6 +419,7 @@ func archiveMain(args []string) {
 					rep.Fail(hx.Failure{Kind: "impl-violates-property", Key: "returned-list-mismatch", Case: canon, Expected: fmt.Sprint(wantRels), Observed: fmt.Sprint(rels)})
 				}
 				rep.Hist("roundtrip-ok")
+				archiveModelCheck(rep, drv, fs, zipf, dst, list, canon)
 			}
 			// ---- zip view --------------------------------------------------------------------------
 			zfs, zfile, err := filesystem.NewZipFileSystem(fs, zipf, filesystem.NoLimits())
@@ -442,7 +450,7 @@ func archiveMain(args []string) {
 			_ = fs.Rm(root)
 		}
 	}
-	rep.Write(o.Report, nil)
+	rep.Write(o.Report, drv)
 }
 
 func checkView(rep *hx.Report, kind string, v filesystem.ICloseableFS, nodes []tNode, canon string) {
@@ -566,5 +574,92 @@ func checkClosed(rep *hx.Report, kind string, v filesystem.ICloseableFS, nodes [
 	}
 	if v.Exists(existing) {
 		rep.Fail(hx.Failure{Kind: "impl-violates-property", Key: kind + "fs-serves-after-close:Exists", Case: canon, Observed: "true"})
+	}
+}
+
+// archiveModelCheck: the entries of the archive just written, in the archive's own order, are given to the Lean model of the
+// extraction loop (Model.Archive over the reference filesystem model); the list it answers and the tree it leaves must be
+// the list the real Unzip returned (in the same order) and the tree found below the destination.
+func archiveModelCheck(rep *hx.Report, drv *hx.Driver, fs filesystem.FS, zipf, dst string, list []string, canon string) {
+	if drv == nil {
+		return
+	}
+	raw, err := fs.ReadFile(zipf)
+	if err != nil {
+		rep.Fail(hx.Failure{Kind: "harness-error", Key: "read-archive", Detail: err.Error()})
+		return
+	}
+	zr, err := zip.NewReader(bytes.NewReader(raw), int64(len(raw)))
+	if err != nil {
+		rep.Fail(hx.Failure{Kind: "harness-error", Key: "read-archive", Detail: err.Error()})
+		return
+	}
+	ids := map[string]int{}
+	pathOf := func(rel string) string {
+		out := "0"
+		if rel == "." || rel == "" {
+			return out
+		}
+		for _, part := range strings.Split(rel, "/") {
+			if _, ok := ids[part]; !ok {
+				ids[part] = len(ids) + 1
+			}
+			out += "." + strconv.Itoa(ids[part])
+		}
+		return out
+	}
+	relOf := func(rel string) string { return strings.TrimPrefix(pathOf(rel), "0.") }
+	line := "arch 0"
+	for _, f := range zr.File {
+		name := strings.TrimSuffix(f.Name, "/")
+		if f.FileInfo().IsDir() {
+			line += " d:" + relOf(name)
+			continue
+		}
+		rc, err := f.Open()
+		if err != nil {
+			rep.Fail(hx.Failure{Kind: "harness-error", Key: "read-archive", Detail: err.Error()})
+			return
+		}
+		b, _ := io.ReadAll(rc)
+		_ = rc.Close()
+		line += fmt.Sprintf(" f:%s:%d", relOf(name), uint64(crcOf(b))+1)
+	}
+	var lst []string
+	for _, p := range list {
+		r, _ := filepath.Rel(dst, p)
+		lst = append(lst, pathOf(filepath.ToSlash(r)))
+	}
+	var tree []string
+	werr := fs.Walk(dst, func(p string, info os.FileInfo, err error) error {
+		if err != nil {
+			return err
+		}
+		rel, _ := filepath.Rel(dst, p)
+		if info.IsDir() {
+			tree = append(tree, pathOf(filepath.ToSlash(rel))+"=d")
+			return nil
+		}
+		b, rerr := fs.ReadFile(p)
+		if rerr != nil && info.Size() > 0 {
+			return rerr
+		}
+		tree = append(tree, fmt.Sprintf("%s=f%d", pathOf(filepath.ToSlash(rel)), uint64(crcOf(b))+1))
+		return nil
+	})
+	if werr != nil {
+		rep.Fail(hx.Failure{Kind: "harness-error", Key: "walk-destination", Detail: werr.Error()})
+		return
+	}
+	sort.Strings(tree)
+	real := fmt.Sprintf("ok list=%s tree=%s", strings.Join(lst, ";"), strings.Join(tree, ";"))
+	ans, err := drv.Ask1(line)
+	if err != nil {
+		rep.Fail(hx.Failure{Kind: "harness-error", Key: "driver", Detail: err.Error()})
+		return
+	}
+	rep.Hist("model-extraction-compared")
+	if ans != real {
+		rep.Fail(hx.Failure{Kind: "model-impl-divergence", Key: "extraction-differs-from-the-model", Case: canon + " | " + line, Expected: ans, Observed: real})
 	}
 }
